@@ -148,6 +148,24 @@ CLAIMED.update({
             "tskit validation of rebuilt tables trusted; zero-count intervals are C35/F3.", TECH, "4/C37"),
 })
 
+CLAIMED.update({
+    "C28": ("preprocess_ts on a recording stub with symbolic site positions / length / minimum_gap and solver-chosen "
+            "options (0-4 sites): intervals passed to delete_intervals are non-empty, sorted, disjoint, site-free and inside "
+            "a flank (only if erase_flanks) or a gap >= minimum_gap; user intervals unchanged; simplify once with the given "
+            "flags and no sample list; node times never written; split/provenance exactly when asked; invalid combos rejected.",
+            "Genotype/sample preservation by delete_intervals + simplify is tskit's contract (trusted).",
+            TECH + "; data-flow + QF_LRA obligations", "4/C28"),
+    "C31": ("sites_time_from_ts / nodes_time_unconstrained / add_sampledata_times on 4 skeletons (roots with mutations, "
+            "two mutations per site, empty sites) with symbolic node times, mn values, min_time: per-site result is the max "
+            "of the selected summaries and min_time, NaN without mutations; element-wise max for sample data.",
+            "json decoding and tsinfer.SampleData are stubs; sqrt is an uninterpreted non-negative root.", TECH, "4/C31"),
+    "C33": ("Histories of two real calls (each method, preprocess_ts) with solver-chosen parameters and record flags: "
+            "exactly one schema-valid record per recording call, earlier records byte-identical, command named, parameter "
+            "names and values exactly those of that call, nothing added when recording is off.",
+            "Concrete small input executed under NUMBA_DISABLE_JIT; timing/resources fields ignored.",
+            TECH + "; exhaustive enumeration of parameter alternatives by the solver", "4/C33"),
+})
+
 NOT_APPLICABLE = {
     "C02": "Every row/column effect of get_modified_ts happens inside tskit's C table routines on concrete "
            "arrays; no symbolic input reaches a branch of tsdate code, so there is nothing for a solver to "
